@@ -1,6 +1,6 @@
 ----------------------------- MODULE Gen_Inspect -----------------------------
 (* C12 generator: wire messages that carry every byte string up to length 3 over *)
-(* {NUL, 'a', '.', '\', '=', 0x80, 0xC3, 0xA9, 0xFF} in every name and string     *)
+(* {NUL, ' ', '"', ';', 'a', '.', '\', '=', 0x80, 0xC3, 0xA9, 0xFF} in every name and string *)
 (* position (owner label, RDATA name label, character-string, TXT strings), plus  *)
 (* empty and maximal strings.  Encoded by the reference encoder.                  *)
 EXTENDS Domains, Bytes, TLC, Json
